@@ -43,15 +43,49 @@ def adapter_cases(res, have_drv):
     res.cov["evaluations"] = res.cov.get("evaluations", 0) + n
 
 
+def dupreg_cases(res, have_drv):
+    """C15: a Dispatcher that is registered is registered a second time (the poller refuses the duplicate fd): the call
+    fails, takes no slot, and the source registered first keeps receiving its events (harness `vh tok`, `dupreg`)."""
+    import os
+    import common as C
+    lines = ["dupreg ping", "dupreg gen"]
+    rc, out, err = C.run_vh("tok", "\n".join(lines) + "\n", timeout=120)
+    if rc != 0:
+        res.broken.append("vh tok (dupreg) failed: " + err[-300:])
+        return
+    impl = out.splitlines()
+    model = None
+    if have_drv:
+        rc, mo, err = C.run_drv("tok", "\n".join(lines) + "\n", timeout=120)
+        model = mo.splitlines() if rc == 0 else None
+    for i, (q, a) in enumerate(zip(lines, impl)):
+        want = "%s second=err occupied=1->1 rounds=3/3" % q
+        if a != want:
+            v = "a refused second registration of a registered Dispatcher: expected `%s`, got `%s`" % (want, a)
+            d = C.write_replay(res.pid, {"case.tokq": q + "\n", "impl.obs": a + "\n", "verdict.txt": v + "\n"})
+            res.violations.append(("%s: %s" % (PID, v), os.path.join(d, "case.tokq")))
+            res.cov["impl_monitor_failures"] += 1
+        elif model is not None and model[i] != a:
+            res.broken.append("correspondence (dupreg): impl `%s` vs model `%s`" % (a, model[i]))
+    res.cov["dupreg_cases"] = len(lines)
+    res.cov["evaluations"] = res.cov.get("evaluations", 0) + len(lines)
+
+
 def run(res, tier, seed, search=False, have_drv=True):
     coreprop.run_property(res, PID, PROFILES, tier, seed, search, have_drv)
     adapter_cases(res, have_drv)
+    dupreg_cases(res, have_drv)
     if res.violations:
         res.broken = []
 
 
 def replay(path):
     case = [l.rstrip("\n") for l in open(path) if l.strip()]
+    if path.endswith(".tokq"):
+        import common as C
+        rc, out, err = C.run_vh("tok", case[0] + "\n", timeout=120)
+        print(out.strip())
+        return 0 if out.strip() == "%s second=err occupied=1->1 rounds=3/3" % case[0] else 1
     if len(case) > 1 and case[1].startswith("mode "):
         from props import c17
         return c17.replay(path)
